@@ -280,8 +280,8 @@ PROPS["C18"] = {
         _c18("c18_s3_fresh", {"strategy": 1, "prefix": 0, "ops": 3}, {"strategy": 1, "prefix": 0, "ops": 4}),
         _c18("c18_part1_persisted", {"strategy": 2, "partitions": 1, "prefix": 1, "ops": 2}, {"strategy": 2, "partitions": 1, "prefix": 1, "ops": 3}),
         _c18("c18_part1_fresh", {"strategy": 2, "partitions": 1, "prefix": 0, "ops": 3}, {"strategy": 2, "partitions": 1, "prefix": 0, "ops": 4}),
-        _c18("c18_part3_persisted", {"strategy": 2, "partitions": 3, "prefix": 2, "ops": 2}, {"strategy": 2, "partitions": 3, "prefix": 1, "ops": 2}),
-        _c18("c18_part10_persisted", {"strategy": 2, "partitions": 10, "prefix": 2, "ops": 1}, {"strategy": 2, "partitions": 10, "prefix": 2, "ops": 2}),
+        _c18("c18_part3_persisted", {"strategy": 2, "partitions": 3, "prefix": 2, "ops": 2}),
+        _c18("c18_part10_persisted", {"strategy": 2, "partitions": 10, "prefix": 2, "ops": 1}),
         _c18("c18_part2_restart_then_history", {"strategy": 2, "partitions": 2, "prefix": 1, "ops": 2, "restart_first": 1}, covers=("snapshot.done", "restart.first-done")),
         _c18("c18_s3_restart_then_history", {"strategy": 1, "prefix": 1, "ops": 2, "restart_first": 1}, covers=("snapshot.done", "restart.first-done")),
         _c18("c18_s3_put_fails_once", {"strategy": 1, "prefix": 1, "ops": 1, "fault": 1}, {"strategy": 1, "prefix": 1, "ops": 2, "fault": 1}, covers=("snapshot.done", "fault.put-failed")),
@@ -298,7 +298,7 @@ PROPS["C18"] = {
         {"name": "c18_two_dbs_part3", "fn": "c18_two_dbs", "params": {"quick": {"strategy": 2, "partitions": 3}, "thorough": {"strategy": 2, "partitions": 10}}},
     ],
     "bounds": {"quick": "strategies s3 and s3_patition (1, 3 and 10 partitions; the key hash is an uninterpreted function: every assignment of keys to partitions is a solver choice) against the in-process bucket of the aws-sdk-s3 shim; histories of 2-3 operations over {set k0 v, set key1 v, remove k0, remove key1, increment n 3, snapshot false, snapshot true} from an empty database and after a first phase persisted by a full snapshot (3 keys; 1 key for 3 and 10 partitions); values of 1-3 symbolic printable bytes; then restart (start_db sequence with load_all_dbs) and comparison with the reference map frozen at the last completed snapshot; the same histories on a node that was restarted after the first phase (its keys were loaded from the bucket; 2 partitions); stub faults: the n-th PUT fails once / fails always, the n-th GET fails once, n a solver integer; two databases whose names share a prefix (d, da) with different strategies",
-               "thorough": "one more operation per history; 3 keys with 3 partitions; 10 partitions with 2 operations"},
+               "thorough": "one more operation per history for the s3 and the 1-partition harnesses (the 3- and 10-partition harnesses keep the quick bound: every further operation multiplies the hash assignments by 7)"},
     "outside": "more than 1000 objects per listing (pagination); read prefix different from write prefix; concurrent loader threads (each database is loaded to completion at the spawn point); the AWS SDK itself (credentials, regions, HTTP), real SipHash values (covered by the uninterpreted hash); multi-byte UTF-8 content",
     "assumptions": ["aws-sdk-s3 / aws-config / bytes / tokio shims: in-memory bucket listed in key order, futures ready at once, block_on = poll loop", "DefaultHasher = uninterpreted function (one solver integer per distinct content)", "thread::spawn runs the closure at the spawn point", "environment shims"],
 }
